@@ -155,10 +155,12 @@ theorem evolves_onListener (pi li : Nat) (f : Listener.S → Listener.S) (w : W)
     · exact Evolves.refl w
     · split
       · exact Evolves.refl w
-      · rename_i l _
-        exact Evolves.trans (Evolves.setPool w pi (fun p => { p with procs := p.procs.set li (f { p := l }).p })
-            (fun p => ⟨rfl, rfl, fun _ h => h⟩))
-          (Evolves.trans (evolves_absorb pi li _ _) (Evolves.of_pools_eq rfl))
+      · split
+        · exact Evolves.refl w
+        · rename_i l _
+          exact Evolves.trans (Evolves.setPool w pi (fun p => { p with procs := p.procs.set li (f { p := l }).p })
+              (fun p => ⟨rfl, rfl, fun _ h => h⟩))
+            (Evolves.trans (evolves_absorb pi li _ _) (Evolves.of_pools_eq rfl))
 
 
 theorem evolves_go (pi e : Nat) (env : Bytes) : ∀ (fuel li : Nat) (w : W), Evolves w (dispatchEvent.go pi e env fuel li w).1
@@ -239,6 +241,48 @@ theorem evolves_spawnOp (pi li : Nat) (pid : Int) (payload : Bytes) (w : W) : Ev
       · exact Evolves.trans (evolves_notify _ payload w) (evolves_onListener pi li _ _)
 
 
+theorem good_flags (p : PoolSt) (a u : Bool) : Good p { p with active := a, used := u } := ⟨rfl, rfl, fun _ h => h⟩
+theorem good_active (p : PoolSt) (a : Bool) : Good p { p with active := a } := ⟨rfl, rfl, fun _ h => h⟩
+
+theorem evolves_gstep (pi : Nat) (s : W × Option Bool) (st : GStep) : Evolves s.1 (gstep pi s st).1 := by
+  unfold gstep
+  split
+  · exact Evolves.refl _
+  · split
+    · exact Evolves.refl _
+    · split
+      · split
+        · exact Evolves.of_pools_eq rfl
+        · exact Evolves.refl _
+      · exact Evolves.trans (Evolves.setPool _ pi _ (fun p => good_flags p true true)) (Evolves.of_pools_eq rfl)
+      · exact Evolves.setPool _ pi _ (fun p => good_active p false)
+      · split
+        · exact evolves_notify _ _ _
+        · exact Evolves.refl _
+      · exact Evolves.refl _
+      · split
+        · exact Evolves.refl _
+        · exact Evolves.refl _
+
+theorem evolves_runGroup (pi : Nat) : ∀ (steps : List GStep) (s : W × Option Bool),
+    Evolves s.1 (steps.foldl (gstep pi) s).1
+  | [], s => Evolves.refl _
+  | st :: r, s => Evolves.trans (evolves_gstep pi s st) (evolves_runGroup pi r _)
+
+theorem evolves_removeOp (pi : Nat) (w : W) : Evolves w (removeOp pi w) := by
+  unfold removeOp removeRun runGroup
+  split
+  · exact Evolves.refl w
+  · exact evolves_runGroup pi _ (w, none)
+
+theorem evolves_addOp (pi : Nat) (w : W) : Evolves w (addOp pi w) := by
+  unfold addOp addRun runGroup
+  split
+  · exact Evolves.refl w
+  · split
+    · exact Evolves.refl w
+    · exact evolves_runGroup pi _ (w, none)
+
 theorem evolves_applyOp (h : Bytes → HRes) (w : W) (op : Op) : Evolves w (applyOp h w op) := by
   cases op <;> simp only [applyOp]
   · exact evolves_notify _ _ w
@@ -247,9 +291,14 @@ theorem evolves_applyOp (h : Bytes → HRes) (w : W) (op : Op) : Evolves w (appl
     | exact evolves_onListener _ _ _ w
     | exact evolves_dieOp h _ _ _ _ w
     | exact evolves_spawnOp _ _ _ _ w
+    | exact evolves_removeOp _ w
+    | exact evolves_addOp _ w
 
-theorem evolves_step (h : Bytes → HRes) (w : W) (op : Op) : Evolves w (step h w op) :=
-  Evolves.trans (Evolves.of_pools_eq (w := w) rfl) (evolves_applyOp h _ op)
+theorem evolves_step (h : Bytes → HRes) (w : W) (op : Op) : Evolves w (step h w op) := by
+  unfold step
+  split
+  · exact Evolves.of_pools_eq rfl
+  · exact Evolves.trans (Evolves.of_pools_eq (w := w) rfl) (evolves_applyOp h _ op)
 
 theorem evolves_exec (h : Bytes → HRes) (w : W) (ops : List Op) : Evolves w (exec h w ops) :=
   evolves_foldl _ (evolves_step h) ops w
@@ -284,7 +333,7 @@ theorem rejected_other (who : Option Nat) (e : Nat) (w : W) (j : Nat)
     (hj : ∀ p, w.pools[j]? = some p → owns p who = false) :
     (rejected who e w).pools[j]? = w.pools[j]? := by
   unfold rejected
-  generalize List.range w.pools.length = l
+  generalize rejecters w.reg = l
   induction l generalizing w with
   | nil => rfl
   | cons i l ih =>
@@ -550,7 +599,7 @@ theorem nodup_keepFirstN : ∀ (n : Nat) (l : List Nat), l.length ≤ n → (kee
     simp
 
 theorem notify_eq_offer (c : Cls) (payload : Bytes) (w : W) (he : w.err = none) :
-    notify c payload w = offer w.events.length (notified (callbacks w.pools) c)
+    notify c payload w = offer w.events.length (acceptors w.reg c)
       { w with events := w.events ++ [{ cls := c, payload := payload }] } := by
   simp [notify, he, offer]
 
@@ -671,11 +720,18 @@ theorem rejected_single (who : Option Nat) (e pi : Nat) (p : PoolSt) : ∀ (l : 
 /-- when exactly pool `pi` owns the rejecting process, the whole `EventRejectedEvent` notification is pool `pi`'s
     `_acceptEvent(event, head=True)` -/
 theorem rejected_eq (who : Option Nat) (pi e : Nat) (w : W) (p : PoolSt) (hp : w.pools[pi]? = some p)
+    (hnd : (rejecters w.reg).Nodup) (hsub : pi ∈ rejecters w.reg)
     (ho : owns p who = true) (hothers : ∀ i, i ≠ pi → ∀ q, w.pools[i]? = some q → owns q who = false) :
     rejected who e w = acceptEvent pi e true w := by
   unfold rejected
-  have hpi : pi < w.pools.length := (List.getElem?_eq_some_iff.mp hp).1
-  exact rejected_single who e pi p _ w List.nodup_range (List.mem_range.mpr hpi) hp ho (fun i _ hne => hothers i hne)
+  exact rejected_single who e pi p _ w hnd hsub hp ho (fun i _ hne => hothers i hne)
+
+/-- a pool whose `handle_rejected` is not subscribed (it was removed: `before_remove()`) does not get the event back --
+    and nobody else does -/
+theorem rejected_unsubscribed (who : Option Nat) (e : Nat) (w : W)
+    (h : ∀ i ∈ rejecters w.reg, ∀ q, w.pools[i]? = some q → owns q who = false) : rejected who e w = w := by
+  unfold rejected
+  exact rejected_skip who e _ w h
 
 /-! ### dispatch order -/
 
@@ -949,7 +1005,7 @@ theorem acceptEvent_fixed (i e : Nat) (head : Bool) (w : W) (j : Nat) :
 theorem rejected_fixed (who : Option Nat) (e : Nat) (w : W) (j : Nat) :
     (rejected who e w).pools[j]?.map fixedPart = w.pools[j]?.map fixedPart := by
   unfold rejected
-  generalize List.range w.pools.length = l
+  generalize rejecters w.reg = l
   induction l generalizing w with
   | nil => rfl
   | cons i l ih =>
@@ -1017,24 +1073,26 @@ theorem onListener_isolated (pi li : Nat) (f : Listener.S → Listener.S) (w : W
     · exact ⟨fun _ _ _ => rfl, fun p p' k h1 h2 _ => by rw [h1] at h2; cases h2; exact ⟨rfl, rfl, rfl⟩⟩
     · split
       · exact ⟨fun _ _ _ => rfl, fun p p' k h1 h2 _ => by rw [h1] at h2; cases h2; exact ⟨rfl, rfl, rfl⟩⟩
-      · rename_i pool hpool _ l _
-        have hwho : whoOf (setPool w pi (fun p => { p with procs := p.procs.set li (f { p := l }).p })) pi li = whoOf w pi li := by
-          unfold whoOf
-          rw [getElem?_setPool]; simp only [if_true]
-          cases w.pools[pi]? <;> rfl
-        refine ⟨fun j hj hown => ?_, fun p p' k h1 h2 hk => ?_⟩
-        · show (absorb pi li _ _).pools[j]? = _
-          rw [absorb_other pi li j _ _ (by
-            intro q hq
-            rw [getElem?_setPool, if_neg (Ne.symm hj)] at hq
-            rw [hwho]; exact hown q hq), getElem?_setPool, if_neg (Ne.symm hj)]
-        · have h3 : (absorb pi li (f { p := l }).outs
-              (setPool w pi (fun p => { p with procs := p.procs.set li (f { p := l }).p }))).pools[pi]? = some p' := h2
-          have h4 := absorb_fixed pi li pi (f { p := l }).outs
-            (setPool w pi (fun p => { p with procs := p.procs.set li (f { p := l }).p }))
-          rw [h3, getElem?_setPool] at h4
-          simp only [if_true, h1, Option.map_some, fixedPart] at h4
-          have h5 : p'.procs = p.procs.set li (f { p := l }).p ∧ p'.ids = p.ids ∧ p'.names = p.names := by simpa using h4
-          exact ⟨by rw [h5.1, List.getElem?_set_ne (Ne.symm hk)], h5.2.1, h5.2.2⟩
+      · split
+        · exact ⟨fun _ _ _ => rfl, fun p p' k h1 h2 _ => by rw [h1] at h2; cases h2; exact ⟨rfl, rfl, rfl⟩⟩
+        · rename_i pool hpool _ _ l _
+          have hwho : whoOf (setPool w pi (fun p => { p with procs := p.procs.set li (f { p := l }).p })) pi li = whoOf w pi li := by
+            unfold whoOf
+            rw [getElem?_setPool]; simp only [if_true]
+            cases w.pools[pi]? <;> rfl
+          refine ⟨fun j hj hown => ?_, fun p p' k h1 h2 hk => ?_⟩
+          · show (absorb pi li _ _).pools[j]? = _
+            rw [absorb_other pi li j _ _ (by
+              intro q hq
+              rw [getElem?_setPool, if_neg (Ne.symm hj)] at hq
+              rw [hwho]; exact hown q hq), getElem?_setPool, if_neg (Ne.symm hj)]
+          · have h3 : (absorb pi li (f { p := l }).outs
+                (setPool w pi (fun p => { p with procs := p.procs.set li (f { p := l }).p }))).pools[pi]? = some p' := h2
+            have h4 := absorb_fixed pi li pi (f { p := l }).outs
+              (setPool w pi (fun p => { p with procs := p.procs.set li (f { p := l }).p }))
+            rw [h3, getElem?_setPool] at h4
+            simp only [if_true, h1, Option.map_some, fixedPart] at h4
+            have h5 : p'.procs = p.procs.set li (f { p := l }).p ∧ p'.ids = p.ids ∧ p'.names = p.names := by simpa using h4
+            exact ⟨by rw [h5.1, List.getElem?_set_ne (Ne.symm hk)], h5.2.1, h5.2.2⟩
 
 end Sv.Pool
